@@ -184,11 +184,19 @@ DEntry(c) == IF c.o.e >= 0 THEN c.o.e ELSE FirstEntry(Flat(c))
 Period(l)   == IF l = "ALL" THEN 1 ELSE IF l \in {"EVEN", "ODD"} THEN 2 ELSE 4
 LaneOffs(l) == CASE l \in {"ALL", "EVEN", "BYTE0"} -> <<0>> [] l \in {"ODD", "BYTE1"} -> <<1>> [] l = "BYTE2" -> <<2>>
                  [] l = "BYTE3" -> <<3>> [] l = "WORD0" -> <<0, 1>> [] OTHER -> <<2, 3>>
-\* byte address shown at output position i (1-based) of a window starting at byte address base (base aligned)
-LaneAddr(l, base, i) == LET k == Len(LaneOffs(l)) IN base + ((i - 1) \div k) * Period(l) + LaneOffs(l)[((i - 1) % k) + 1]
+\* byte address shown at output position i (1-based) of a window starting at byte address base: the i-th address
+\* >= base that belongs to the lane.  base need NOT be a multiple of the lane period (image start / -r lower bound /
+\* lowest record address of any phase): b0 is the period base falls into, skip the lane bytes of that period below base.
+LaneAddr(l, base, i) == LET k    == Len(LaneOffs(l))
+                            b0   == base - (base % Period(l))
+                            skip == Cardinality({j \in 1..k : b0 + LaneOffs(l)[j] < base})
+                            n    == i - 1 + skip
+                        IN b0 + (n \div k) * Period(l) + LaneOffs(l)[(n % k) + 1]
 
 \* The manual gives the case a definite outcome: one granularity among the selected records, a determinable
-\* non-empty window, and a window made of whole lane periods (the manual is silent about partial periods).
+\* non-empty window, and a window whose LENGTH is a whole number of lane periods: such a window holds exactly
+\* length / factor lane bytes wherever it starts ("smaller by a factor of 2 or 4"), so the start itself may have any
+\* phase; the manual is silent only about windows with a partial period.
 Definite(c) ==
   LET o == c.o
       items == Flat(c)
@@ -196,7 +204,6 @@ Definite(c) ==
   IN /\ WellFormed(items) /\ DUniform(o, items)
      /\ (o.rs < 0 \/ o.re < 0) => DSel(o, items) # {}
      /\ DStart(o, items) <= DStop(o, items)
-     /\ (DStart(o, items) * G) % Period(o.lane) = 0
      /\ ((DStop(o, items) - DStart(o, items) + 1) * G) % Period(o.lane) = 0
 
 \* bytes the selected records place at byte address x (several when records overlap: the manual does not say
